@@ -177,3 +177,42 @@ Proof.
   guard_tac n 8.
 Qed.
 
+
+(* ---- the typed overload alignedMalloc<T>(nElements, align), sizeof(T) = 4 and 8: what it hands on *)
+Lemma gen_typed_request_4 n a :
+  GenAlloc.memory_alignedMalloc__ul_ul_request MZ n a = (wrap (n * 4), a).
+Proof. reflexivity. Qed.
+
+Lemma gen_typed_request_8 n a :
+  GenAlloc.memory_alignedMalloc__ul_ul_2_request MZ n a = (wrap (n * 8), a).
+Proof. reflexivity. Qed.
+
+Lemma gen_typed_model_4 ost be ndebug (w : world ost) n a :
+  aligned_malloc_typed ost be ndebug w 4 n a =
+  aligned_malloc ost be ndebug w (fst (GenAlloc.memory_alignedMalloc__ul_ul_request MZ n a))
+                                 (snd (GenAlloc.memory_alignedMalloc__ul_ul_request MZ n a)).
+Proof. rewrite gen_typed_request_4. reflexivity. Qed.
+
+Lemma gen_typed_model_8 ost be ndebug (w : world ost) n a :
+  aligned_malloc_typed ost be ndebug w 8 n a =
+  aligned_malloc ost be ndebug w (fst (GenAlloc.memory_alignedMalloc__ul_ul_2_request MZ n a))
+                                 (snd (GenAlloc.memory_alignedMalloc__ul_ul_2_request MZ n a)).
+Proof. rewrite gen_typed_request_8. reflexivity. Qed.
+
+(* ---- construct / destroy: placement copy construction and in-place destruction, nothing else
+   (T = unsigned char, short, float, double and a class with user-provided copy constructor/destructor) *)
+Lemma gen_construct_shapes :
+  GenAlloc.aligned_allocator64_construct__p_uc_shape = [CPlacementCopy] /\
+  GenAlloc.aligned_allocator64_construct__p_s_shape = [CPlacementCopy] /\
+  GenAlloc.aligned_allocator64_construct__p_f_shape = [CPlacementCopy] /\
+  GenAlloc.aligned_allocator64_construct__p_d_shape = [CPlacementCopy] /\
+  GenAlloc.containers_aligned_allocator64_construct__p_Obj_shape = [CPlacementCopy].
+Proof. repeat split; reflexivity. Qed.
+
+Lemma gen_destroy_shapes :
+  GenAlloc.aligned_allocator64_destroy__p_shape = [CDestroyInPlace] /\
+  GenAlloc.aligned_allocator64_destroy__p_2_shape = [CDestroyInPlace] /\
+  GenAlloc.aligned_allocator64_destroy__p_3_shape = [CDestroyInPlace] /\
+  GenAlloc.aligned_allocator64_destroy__p_4_shape = [CDestroyInPlace] /\
+  GenAlloc.containers_aligned_allocator64_destroy__p_shape = [CDestroyInPlace].
+Proof. repeat split; reflexivity. Qed.
